@@ -13,6 +13,7 @@ from fractions import Fraction
 from ..facts import render, strip, alternatives, resolve_conds, cond_str, walk, AnchorLost, field_path
 from ..data import parse_code, abstract_tokens
 from ..tables import spec
+from ..common import check_binop_table, short_fn
 
 
 def families(ctx):
@@ -297,109 +298,6 @@ def k6_table(ctx):
         ctx.ok('K6', 'other converted into self.1.names[0] under the DYNAMIC_TYPE arm', 'gamma', site=t['loc'])
     # (2) operation table and result kinds
     check_binop_table(ctx, b, 'K6', result_adt='compiler::dynamic_type::DynamicTypeItem', same_kind_quotient=True)
-
-
-OPS = {'Add': 'Add', 'Sub': 'Sub', 'Mul': 'Mul', 'Div': 'do_divition'}
-
-
-def check_binop_table(ctx, b, rid, result_adt, same_kind_quotient):
-    """shared by NUMBER / MONEY / DYNAMIC_TYPE calculate(): `match operation_type {Add: l+r, Sub: l-r, Mul: l*r,
-    Div: do_divition(l, r)}` with (l, r) = (self, other) when on_left; result built with self's unit/currency/type;
-    a same-kind quotient returns a NumberItem."""
-    F = ctx.facts
-    adt = F.adts.get('compiler::OperationType')
-    if not adt:
-        raise AnchorLost('enum compiler::OperationType not found')
-    discr = {v['name']: v['discr'] for v in adt['variants']}
-    table = {}
-    for i in b.normal_blocks:
-        bl = b.blocks[i]
-        nodes = [(s, 'stmt') for s in bl['stmts'] if s['k'] == 'assign' and s['rv'] == 'binop' and s['op'] in ('Add', 'Sub', 'Mul', 'Div') and s['lhs']['ty'] == 'f64']
-        t = bl['term']
-        if t['k'] == 'call' and t.get('callee') and t['callee']['path'].endswith('tools::do_divition'):
-            nodes.append((t, 'call'))
-        for node, kind in nodes:
-            conds = [(render(d), v) for (_, d, v) in b.conditions(i)]
-            opc = [v for (d, v) in conds if 'operation_type' in d and d.startswith('discr(')]
-            if not opc:
-                continue
-            v = opc[-1]
-            if isinstance(v, tuple):
-                rest = set(discr.values()) - set(v[1])
-                if len(rest) != 1:
-                    continue
-                val = list(rest)[0]
-            else:
-                if len(v) != 1:
-                    continue
-                val = list(v)[0]
-            variant = [n for n, dv in discr.items() if dv == val]
-            if not variant:
-                continue
-            if kind == 'stmt':
-                op = node['op']
-                l, r = b.expr(node['ops'][0]), b.expr(node['ops'][1])
-                loc = node['loc']
-            else:
-                op = 'do_divition'
-                l, r = b.expr(node['args'][0]), b.expr(node['args'][1])
-                loc = node['loc']
-            table.setdefault(variant[0], []).append((op, l, r, loc))
-    for variant, want in OPS.items():
-        rows = table.get(variant, [])
-        if not rows:
-            ctx.finding(rid, '%s/%s-missing' % (short_fn(b), variant), 'no arithmetic found under OperationType::%s' % variant, site=b.loc)
-            continue
-        for op, l, r, loc in rows:
-            bad = None
-            if op != want:
-                bad = 'OperationType::%s computes %s' % (variant, op)
-            else:
-                # operand order: left operand must be the `on_left` selection with self first
-                lo = operand_order(b, l, r)
-                if lo == 'swapped':
-                    bad = 'OperationType::%s has its operands swapped: %s(%s, %s)' % (variant, op, render(l)[:60], render(r)[:60])
-                elif lo is None:
-                    bad = 'operands of OperationType::%s not recognised: (%s, %s)' % (variant, render(l)[:80], render(r)[:80])
-            if bad:
-                ctx.finding(rid, '%s/%s' % (short_fn(b), variant), bad, site=loc)
-            else:
-                ctx.ok(rid, '%s: %s(left, right)' % (variant, op), 'gamma', site=loc)
-    return table
-
-
-def operand_order(b, l, r):
-    """(left, right) are built as `if on_left {(self.0, other)} else {(other, self.0)}`. With the gamma
-    expansion: under on_left != 0 the first operand must be self.0 and the second must not be; under
-    on_left == 0 the reverse. Returns 'ok' | 'swapped' | None (not recognised)."""
-    def pick(e):
-        got = {}
-        for a, conds in alternatives(b, e):
-            cs = [cond_str(d, v) for d, v in resolve_conds(b, conds)]
-            flag = [c for c in cs if c.startswith('on_left')]
-            if not flag:
-                return None
-            got['T' if flag[-1].endswith('!=[0]') else 'F'] = render(a)
-        return got
-    L, R = pick(l), pick(r)
-    if not L or not R or set(L) != {'T', 'F'} or set(R) != {'T', 'F'}:
-        # no on_left gating: plain (self, other)
-        ls, rs = render(l), render(r)
-        if ls == 'self.0' and rs != 'self.0':
-            return 'ok'
-        if rs == 'self.0' and ls != 'self.0':
-            return 'swapped'
-        return None
-    if L['T'] == 'self.0' and R['F'] == 'self.0' and R['T'] != 'self.0' and L['F'] != 'self.0':
-        return 'ok'
-    if R['T'] == 'self.0' and L['F'] == 'self.0' and L['T'] != 'self.0' and R['F'] != 'self.0':
-        return 'swapped'
-    return None
-
-
-def short_fn(b):
-    from ..facts import fn_key
-    return fn_key(b.path)
 
 
 def k7_patterns(ctx):
